@@ -248,6 +248,10 @@ ANY_METHODS.update({
     # networkx edge view `G.edges(data=True)`: read as a pure function of the graph giving a sequence of
     # (source name, target name, attribute dict) triples (assumed contract A4)
     "edges": {"pure": True, "returns": SEQ(FIXTUP(STR, STR, DICT(STR, ANY))), "raises": []},
+    # networkx `G.subgraph(names)` (assumed contract A4: total; the induced view, its content is not used by verified code)
+    "subgraph": {"pure": False, "returns": ANY, "raises": []},
+    # `.copy()` of an untyped value (a networkx graph view): total, an unspecified object
+    "copy": {"pure": False, "returns": ANY, "raises": []},
 })
 ANY_ATTRS.update({"runner": ANY, "map_config": ANY})
 OPAQUE = {
@@ -283,6 +287,12 @@ OPAQUE = {
     # _typing.is_type_compatible (assumed contract A4; the relation itself is decided by the bounded type-universe oracle):
     # total and a pure function of the two type objects
     "is_type_compatible": {"raises": [], "returns": BOOL, "pure": True},
+    # graph/input_spec.py:_active_from_selection (worklist over networkx predecessors / descendants, outside the subset;
+    # assumed contract A4, its behaviour is decided by the bounded C16 harness): total, a set of names
+    "_active_from_selection": {"raises": [], "returns": SET(STR)},
+    # runners/_shared/validation.py:_group_entrypoints_by_scc (networkx strongly connected components, outside the subset;
+    # assumed contract A4): total, a mapping from a cycle index to the entry points of that cycle
+    "_group_entrypoints_by_scc": {"raises": [], "returns": DICT(INT, SEQ(STR))},
     # nodes/_rename.py:build_reverse_rename_map (assumed contract A4; its functional behaviour over rename HISTORIES is
     # decided by the bounded C06 harness only): total, returns a fresh dict[str, str] whose content is a deterministic
     # function of (history list, kind); the history list of a published node is never mutated
@@ -449,6 +459,33 @@ def _lib_iskeyword(ex, args, kwargs, s):
     yield s, BVal(z3.Function("kw_iskeyword", smt.V, z3.BoolSort())(to_v(args[0], s)))
 
 
+NX_REACH = z3.Function("nx_reaches", smt.V, smt.V, smt.V, z3.BoolSort())
+
+
+def _spec_reaches(ex, args, kwargs, s):
+    """specrt.reaches(G, a, b): the uninterpreted reachability relation of the (immutable during the call) networkx graph."""
+    from pyvc.engine import to_v
+    yield s, BVal(NX_REACH(to_v(args[0], s), to_v(args[1], s), to_v(args[2], s)))
+
+
+def _lib_nx_descendants(ex, args, kwargs, s):
+    """networkx.descendants(G, n) (assumed contract A4: n is a node of G - the callers pass validated names -, no exception):
+    a FRESH set of names whose members are exactly the names related to n by the uninterpreted relation `reaches(G, n, .)`."""
+    from pyvc.engine import to_v, alloc_set
+    s.trace.append(("call", "nx.descendants", {"args": args}))
+    g, n = to_v(args[0], s), to_v(args[1], s)
+    r = alloc_set(s, STR)
+    k = z3.Const(smt.fresh_name("dk"), smt.V)
+    member = z3.Const(smt.fresh_name("desc_of"), z3.ArraySort(smt.V, z3.BoolSort()))
+    cnt = smt.fresh_int("dn")
+    s.heap = s.heap.with_comp("sh", z3.Store(s.heap.c["sh"], r.t, member)).with_comp("sn", z3.Store(s.heap.c["sn"], r.t, cnt))
+    s.assume(smt.forall([k], member[k] == NX_REACH(g, n, k), patterns=[member[k]]),
+             smt.forall([k], z3.Implies(NX_REACH(g, n, k), member[k]), patterns=[NX_REACH(g, n, k)]),
+             smt.forall([k], z3.Implies(member[k], smt.is_str(k)), patterns=[member[k]]),
+             *smt.heap_wellformed_ref(s.heap, r.t, "s"))
+    yield s, r
+
+
 def _lib_dict_fromkeys(ex, args, kwargs, s):
     """dict.fromkeys(iterable) (assumed contract A4: elements hashable, no exception): a fresh dict; only its existence is
     used by the verified code (de-duplication preserving order feeds `tuple(...)`)."""
@@ -478,6 +515,8 @@ LIBRARY = {
     "copy.deepcopy": _lib_deepcopy,
     "contracts.specrt.is_deepcopy": _spec_is_deepcopy,
     "contracts.specrt.is_new": _spec_is_new,
+    "contracts.specrt.reaches": _spec_reaches,
+    "networkx.algorithms.dag.descendants": _lib_nx_descendants,
 }
 CTOR_FIELDS = {}
 CTORS = {}
